@@ -37,27 +37,30 @@ def on(sp):
 
 
 def expected_chain(props, mapped):
-    """outermost first, for the default wrappers / the mapped tags (independent reading of the statement)"""
-    chain = []
+    """outermost first, for the default wrappers / the mapped tags (independent reading of the statement);
+    a property mapped to the empty path (`b =>`) adds no element; mapped to `!` the run's text is dropped (None)"""
+    active = []
     if on(props["toggles"]["w:b"]):
-        chain.append(mapped.get("b", "strong"))
+        active.append(mapped.get("b", "strong"))
     if on(props["toggles"]["w:i"]):
-        chain.append(mapped.get("i", "em"))
+        active.append(mapped.get("i", "em"))
     if props["va"] == "superscript":
-        chain.append("sup")
+        active.append("sup")
     if props["va"] == "subscript":
-        chain.append("sub")
+        active.append("sub")
     if props["u"] not in ("absent", "bare", "none", "false", "0") and "u" in mapped:
-        chain.append(mapped["u"])
+        active.append(mapped["u"])
     if on(props["toggles"]["w:strike"]):
-        chain.append(mapped.get("strike", "s"))
+        active.append(mapped.get("strike", "s"))
     if on(props["toggles"]["w:caps"]) and "all-caps" in mapped:
-        chain.append(mapped["all-caps"])
+        active.append(mapped["all-caps"])
     if on(props["toggles"]["w:smallCaps"]) and "small-caps" in mapped:
-        chain.append(mapped["small-caps"])
+        active.append(mapped["small-caps"])
     if props["hl"] not in (None, "none", "") and "highlight" in mapped:
-        chain.append(mapped["highlight"])
-    return chain
+        active.append(mapped["highlight"])
+    if "!" in active:
+        return None
+    return [a for a in active if a != ""]
 
 
 def make_case(rng, key, props_list, mapped):
@@ -103,7 +106,7 @@ def run(out, tier, seed, model_ok):
     nex = len(cs)
     tags = ["span", "code", "mark", "u", "b", "del", "strong", "em", "span.bold", "span.italic", "span.x", "span[title='t']", "span[title='u']"]
     for i in range(common.deepen(2000 if tier == "quick" else 30000)):
-        mapped = {k: rng.choice(tags) for k in ["b", "i", "u", "strike", "all-caps", "small-caps", "highlight"] if rng.random() < 0.35}
+        mapped = {k: rng.choice(tags if rng.random() < 0.85 else ["", "", "!"]) for k in ["b", "i", "u", "strike", "all-caps", "small-caps", "highlight"] if rng.random() < 0.35}
         n = rng.choice([1, 2, 2, 3, 4])
         plist = []
         for _ in range(n):
